@@ -118,3 +118,5 @@ package lexer
 //@   ensures[C03] result ==> valueMatches(l)
 //@   ensures[C03] !result ==> l.reader.char == 0
 //@   ensures[C03] !result ==> l.reader.pos == len(l.reader.runes) && len(l.reader.history) == 0
+//@   witness post:3.0#7 "x = `ls`\ny = 1\n" expect "read error"
+//@   witness post:6.0#0 "x = 1\n\x00\ny = 1 + \"a\"\n" expect-not "type mismatch"
